@@ -74,6 +74,7 @@ func main() {
 	verif := flag.String("verif", "/verif", "verif root")
 	out := flag.String("out", "", "output directory")
 	goroot := flag.String("goroot", "", "GOROOT of the toolchain that will build (for shim generation)")
+	wide := flag.Bool("wide", false, "instrument every package of the repository (statement-level scheduling points everywhere; C01's concurrent part)")
 	flag.Parse()
 	if *out == "" {
 		fatal("missing -out")
@@ -127,6 +128,41 @@ func main() {
 	}
 
 	// 5. import swaps (+ access instrumentation) per package directory
+	if *wide {
+		// every package directory of the repository: sync and sync/atomic are swapped (a thread
+		// parked inside a critical section must block its peers in the scheduler, not in the
+		// runtime) and all accesses to own struct fields, maps, package-level and captured
+		// variables are recorded. The logger is left alone (no shared decision state, very many
+		// statements per request).
+		must(filepath.Walk(*repo, func(p string, info os.FileInfo, err error) error {
+			if err != nil {
+				return err
+			}
+			if !info.IsDir() {
+				return nil
+			}
+			rel, _ := filepath.Rel(*repo, p)
+			base := filepath.Base(p)
+			if rel != "." && (strings.HasPrefix(base, ".") || base == "testdata" || base == "verifx" || base == "docs" || base == "contrib" || base == "node_modules") {
+				return filepath.SkipDir
+			}
+			if rel == "pkg/logger" || rel == "tools" || strings.HasPrefix(rel, "tools/") {
+				return nil
+			}
+			if g, _ := filepath.Glob(filepath.Join(p, "*.go")); len(g) == 0 {
+				return nil
+			}
+			m := map[string]string{"sync": "vsync", "sync/atomic": "vatomic"}
+			for k, v := range swaps[rel] {
+				m[k] = v
+			}
+			swaps[rel] = m
+			instrumented[rel] = true
+			instrumentVars[rel] = true
+			delete(instrumentedFiles, rel)
+			return nil
+		}))
+	}
 	dirs := make([]string, 0, len(swaps))
 	for d := range swaps {
 		dirs = append(dirs, d)
@@ -146,7 +182,7 @@ func main() {
 					pkgVars = packageVarNames(abs)
 				}
 			}
-			if d == "." && !mainOnly[filepath.Base(f)] {
+			if d == "." && !mainOnly[filepath.Base(f)] && !*wide {
 				// package main: besides validator.go only files that themselves use sync or
 				// sync/atomic are swapped and instrumented (a refactoring may move the shared
 				// structure into a new file); the request-handling files are left alone
